@@ -1,4 +1,4 @@
-import DemesVerif.Spec.Relations
+import DemesVerif.Proofs.MatRows
 namespace Demes.Proofs
 open Demes Demes.Spec
 
@@ -23,13 +23,81 @@ def exampleGraph : Graph :=
 theorem matrices_end_times (g : Graph) (hv : validGraph g = true) :
     ∃ mms ends, migrationMatrices g = .ok (mms, ends) ∧ ends ≠ [] ∧ ends.getLast? = some 0
       ∧ ends.Pairwise (· > ·) ∧ mms.length = ends.length := by
-  sorry
+  have hf := validFacts hv
+  obtain ⟨mms, h, hl, _, _⟩ := mm_main g hf
+  obtain ⟨h1, h2, h3, _⟩ := mmEndTimes_props g.migrations (times_nonneg hf)
+  exact ⟨mms, _, h, h1, h2, h3, hl⟩
 
 theorem matrices_pointwise (g : Graph) (hv : validGraph g = true) (mms : List Matrix) (ends : List Q)
     (h : migrationMatrices g = .ok (mms, ends)) (t : Q) (ht : 0 ≤ t)
     (i j : Nat) (di dj : Deme) (hi : g.demes[i]? = some di) (hj : g.demes[j]? = some dj) :
     ∃ k mm, intervalOf ends t = some k ∧ mms[k]? = some mm
       ∧ mm.get i j = rateAt g dj.name di.name t := by
-  sorry
+  have hf := validFacts hv
+  obtain ⟨mms0, h0, hl, _, hget⟩ := mm_main g hf
+  obtain ⟨_, hlast, hp, hmem⟩ := mmEndTimes_props g.migrations (times_nonneg hf)
+  rw [h0] at h
+  simp only [Except.ok.injEq, Prod.mk.injEq] at h
+  obtain ⟨rfl, rfl⟩ := h
+  obtain ⟨k, hk⟩ := intervalOf_exists hlast ht
+  obtain ⟨hklt, _, _⟩ := intervalOf_spec hk
+  have hk' : k < mms0.length := by rw [hl]; exact hklt
+  refine ⟨k, mms0[k], hk, List.getElem?_eq_getElem hk', ?_⟩
+  exact entry_eq hf hp hmem hget hk (List.getElem?_eq_getElem hk') hi hj
+
+/-- every matrix is square, of the size of the deme list -/
+theorem matrices_shape (g : Graph) (hv : validGraph g = true) (mms : List Matrix) (ends : List Q)
+    (h : migrationMatrices g = .ok (mms, ends)) :
+    ∀ mm ∈ mms, mm.length = g.demes.length ∧ ∀ row ∈ mm, row.length = g.demes.length := by
+  obtain ⟨mms0, h0, _, hsh, _⟩ := mm_main g (validFacts hv)
+  rw [h0] at h
+  simp only [Except.ok.injEq, Prod.mk.injEq] at h
+  obtain ⟨rfl, rfl⟩ := h
+  exact hsh
+
+/-- row `i` of matrix `k` sums to the total ingress into deme `i` at the end time `ends[k]` -/
+theorem matrices_row_sum (g : Graph) (hv : validGraph g = true) (mms : List Matrix) (ends : List Q)
+    (h : migrationMatrices g = .ok (mms, ends)) (k i : Nat) (e : Q) (mm : Matrix) (row : List Q)
+    (di : Deme) (he : ends[k]? = some e) (hmm : mms[k]? = some mm) (hrow : mm[i]? = some row)
+    (hi : g.demes[i]? = some di) :
+    rowSum row = ingressAt g di.name e := by
+  have hf := validFacts hv
+  obtain ⟨mms0, h0, hl, hsh, hget⟩ := mm_main g hf
+  obtain ⟨_, _, hp, hmem⟩ := mmEndTimes_props g.migrations (times_nonneg hf)
+  rw [h0] at h
+  simp only [Except.ok.injEq, Prod.mk.injEq] at h
+  obtain ⟨rfl, rfl⟩ := h
+  obtain ⟨hklt, rfl⟩ := List.getElem?_eq_some_iff.mp he
+  have hs := hsh mm (List.mem_of_getElem? hmm)
+  have hrow_eq : row = g.demes.map (fun dj => rateAt g dj.name di.name (mmEndTimes g.migrations)[k]) := by
+    rw [row_eq hs hrow]
+    apply List.ext_getElem
+    · simp
+    · intro j h1 h2
+      simp only [List.length_map, List.length_range] at h1
+      simp only [List.getElem_map, List.getElem_range]
+      exact entry_eq hf hp hmem hget (intervalOf_self hp hklt) hmm hi (List.getElem?_eq_getElem h1)
+  rw [rowSum_eq, hrow_eq, ingress_eq hf]
+
+theorem matrices_rows_le_one (g : Graph) (hv : validGraph g = true) (mms : List Matrix) (ends : List Q)
+    (h : migrationMatrices g = .ok (mms, ends)) :
+    ∀ mm ∈ mms, ∀ row ∈ mm, ingressOk (rowSum row) = true := by
+  intro mm hmm row hrow
+  have hf := validFacts hv
+  obtain ⟨k, hk⟩ := List.mem_iff_getElem?.mp hmm
+  obtain ⟨i, hi⟩ := List.mem_iff_getElem?.mp hrow
+  have hs := matrices_shape g hv mms ends h mm hmm
+  have hilt : i < g.demes.length := by rw [← hs.1]; exact (List.getElem?_eq_some_iff.mp hi).1
+  obtain ⟨mms0, h0, hl, _, _⟩ := mm_main g hf
+  obtain ⟨_, _, _, hmem⟩ := mmEndTimes_props g.migrations (times_nonneg hf)
+  have h' := h
+  rw [h0] at h'
+  simp only [Except.ok.injEq, Prod.mk.injEq] at h'
+  obtain ⟨rfl, rfl⟩ := h'
+  have hklt : k < (mmEndTimes g.migrations).length := by
+    rw [← hl]; exact (List.getElem?_eq_some_iff.mp hk).1
+  rw [matrices_row_sum g hv _ _ h k i _ mm row g.demes[i] (List.getElem?_eq_getElem hklt) hk hi
+    (List.getElem?_eq_getElem hilt)]
+  exact hf.ingress _ (mem_boundaries ((hmem _).mp (List.getElem_mem _))) _ (List.getElem_mem _)
 
 end Demes.Proofs
